@@ -221,6 +221,8 @@ macro_rules! sqltry {
         match $e {
             Ok(x) => x,
             Err(SqlErr::Timeout) => return Eval::Inconclusive(format!("timeout in {}", $what)),
+            // a (tiny) memory limit may be part of the case: SHOW sorts its output
+            Err(SqlErr::Failed(m)) if m.contains("Resources exhausted") || m.contains("Failed to allocate") => return Eval::Inconclusive(format!("{} hit the configured memory limit", $what)),
             Err(SqlErr::Failed(m)) => return Eval::Finding(Finding { class: format!("show-failed"), message: format!("{} failed: {m}", $what) }),
         }
     };
